@@ -58,4 +58,108 @@ QuantileBad(data, divs) ==
   ELSE Viol("NonDecreasing", NonDecreasing(divs))
        \cup Viol("FirstIsMin", divs[1] = Min(SeqSet(data)))
        \cup Viol("LastIsMax", divs[Len(divs)] = Max(SeqSet(data)))
+
+-----------------------------------------------------------------------------
+(* C44 - repartition / from_pandas keep the rows, their order and the requested
+   layout.
+
+   A case is   src : partitioned frame (the collection the operation is applied to;
+                     known divisions of a source are truthful - precondition)
+               arg : the request
+                     [k |-> "n", n |-> 3]                         repartition(npartitions = 3)
+                     [k |-> "d", d |-> <<0, 2, 3>>, force |-> F]  repartition(divisions = .., force = ..)
+                     [k |-> "size", bytes |-> 40]                 repartition(partition_size = 40)
+   An OBSERVATION of the result (harness.frameobs.observe) is
+               [raised  |-> "" or the exception name,
+                nparts  |-> declared .npartitions,
+                ndivs   |-> Len(.divisions)   (also when they are unknown),
+                divs    |-> .divisions, <<>> when unknown,
+                parts   |-> rows of every partition, each computed through its own key,
+                wholeok |-> compute() of the whole = concatenation of the partitions]
+
+   What the property states and nothing else (the size of the individual
+   partitions, whether divisions stay known, key names ... are left free):
+     Raised      a legal request must not raise
+     SameRows    the same row ids in the same order
+     LabelsKept  every row keeps its index label
+     ExactN      npartitions = n  ->  exactly n partitions are computed
+     DeclaredN   ... and .npartitions says n
+     ExactDivs   divisions = d    ->  .divisions is exactly d, Len(d) - 1 partitions
+     Meta        .npartitions = number of computed partitions = Len(.divisions) - 1
+     Truthful    known result divisions describe the computed partitions (C41)
+     WholeOK     compute() agrees with the partitions
+   An illegal divisions request (unknown source divisions, d unsorted or with
+   duplicates before the last entry, d not matching / not covering the source's
+   outer divisions) is outside the property: raising is fine; but if it is accepted
+   silently the result must still meet the contract, else "IllegalAccepted".    *)
+
+SrcOf(idx, layout, sdivs) == [parts |-> SplitBySizes(FrameOfIdx(idx), layout), divs |-> sdivs]
+
+\* dask.dataframe.core.check_divisions + the outer-division rules of RepartitionDivisions
+WellFormedDivs(d) == /\ Len(d) >= 2
+                     /\ NonDecreasing(d)
+                     /\ StrictlyIncreasing(SubSeq(d, 1, Len(d) - 1))
+LegalDivs(src, d, force) ==
+  /\ KnownDivs(src)
+  /\ WellFormedDivs(d)
+  /\ LET a == src.divs IN
+     IF force THEN d[1] <= a[1] /\ a[Len(a)] <= d[Len(d)]
+              ELSE d[1] = a[1] /\ a[Len(a)] = d[Len(d)]
+
+ObsRows(obs)       == ConcatParts(obs.parts)
+ObsLabelParts(obs) == [i \in DOMAIN obs.parts |-> Idxs(obs.parts[i])]
+
+RowsBad(rows, obs) ==
+  Viol("SameRows", SameRowSeq(rows, ObsRows(obs)))
+  \cup Viol("LabelsKept", LabelsKept(rows, ObsRows(obs)))
+
+MetaBad(obs) ==
+  Viol("Meta", obs.nparts = Len(obs.parts) /\ obs.ndivs = obs.nparts + 1)
+  \cup Viol("Truthful", obs.divs # <<>> => DivisionsTruthful(obs.divs, ObsLabelParts(obs)))
+  \cup Viol("WholeOK", obs.wholeok)
+
+RepartContract(src, arg, obs) ==
+  RowsBad(Rows(src), obs) \cup MetaBad(obs)
+  \cup (CASE arg.k = "n" -> Viol("ExactN", Len(obs.parts) = arg.n) \cup Viol("DeclaredN", obs.nparts = arg.n)
+          [] arg.k = "d" -> Viol("ExactDivs", obs.divs = arg.d /\ Len(obs.parts) = Len(arg.d) - 1)
+          [] OTHER       -> {})
+
+RepartLegal(src, arg) == arg.k = "d" => LegalDivs(src, arg.d, arg.force)
+
+RepartBad(src, arg, obs) ==
+  IF RepartLegal(src, arg)
+  THEN IF obs.raised # "" THEN {"Raised"} ELSE RepartContract(src, arg, obs)
+  ELSE IF obs.raised # "" THEN {}
+       ELSE IF RepartContract(src, arg, obs) = {} THEN {} ELSE {"IllegalAccepted"}
+
+(* from_pandas(frame, npartitions = v | chunksize = v, sort): idx = the labels of
+   the pandas frame in row order (row i has rid i - 1).  With sort = TRUE and an
+   index that is not already monotonic the rows come out sorted by label (order
+   among equal labels is not promised: pandas' default sort is not stable);
+   otherwise in their original order.  The number of partitions is NOT promised
+   ("npartitions ... may be fewer"); known divisions must be truthful.          *)
+FromPandasBad(idx, arg, obs) ==
+  LET rows == FrameOfIdx(idx)
+      out  == ObsRows(obs)
+  IN IF obs.raised # "" THEN {"Raised"}
+     ELSE (IF arg.sort /\ ~NonDecreasing(idx)
+           THEN Viol("SameRows", SameRowBag(rows, out)) \cup Viol("Sorted", SortedByIdx(out))
+           ELSE Viol("SameRows", SameRowSeq(rows, out)))
+          \cup Viol("LabelsKept", LabelsKept(rows, out))
+          \cup MetaBad(obs)
+
+(* Reference outcomes (one admissible result each) used by the design check of
+   DivisionsMC: if the contract rejected them it would be over-strict.         *)
+EvenSizes(n, m) == [i \in 1..m |-> (n \div m) + (IF i <= n % m THEN 1 ELSE 0)]
+MkObs(parts, divs) == [raised |-> "", nparts |-> Len(parts), ndivs |-> Len(parts) + 1, divs |-> divs,
+                       parts |-> parts, wholeok |-> TRUE]
+RefRepartN(src, n) == MkObs(SplitBySizes(Rows(src), EvenSizes(Len(Rows(src)), n)), <<>>)
+RefRepartD(src, d) ==
+  MkObs([i \in 1..(Len(d) - 1) |-> SelectSeq(Rows(src), LAMBDA r : InDivision(d, i, r.idx))], d)
+RefRepart(src, arg) == CASE arg.k = "n" -> RefRepartN(src, arg.n)
+                         [] arg.k = "d" -> RefRepartD(src, arg.d)
+                         [] OTHER       -> MkObs(src.parts, src.divs)
+RefFromPandas(idx, arg) ==
+  LET rows == IF arg.sort THEN StableSortByIdx(FrameOfIdx(idx)) ELSE FrameOfIdx(idx)
+  IN MkObs(<<rows>>, IF SortedByIdx(rows) THEN <<rows[1].idx, rows[Len(rows)].idx>> ELSE <<>>)
 =============================================================================
